@@ -265,7 +265,8 @@ def r05_3(run):
     ver, rep, _, typ = names
     src_ok = src(c01_resolve(defs, unp.value.args[1])) in ('self._data[:4]',)
     run.ob('R05.3', pr, unp, 'header = first four buffered bytes', src_ok, slot='header-source', message='header taken from %s' % src(unp.value.args[1]))
-    disp = [n for n in g.real_nodes() if any(isinstance(a, ast.Call) and (dotted(a.func) == 'method' or (dotted(a.func) or '').startswith('self._parse_'))
+    disp_vars = names_defined_by(pr, lambda v: isinstance(v, ast.Subscript) and isinstance(v.value, ast.Name))
+    disp = [n for n in g.real_nodes() if any(isinstance(a, ast.Call) and (dotted(a.func) in disp_vars or (dotted(a.func) or '').startswith('self._parse_'))
                                              for a in node_asts(n))]
     # the dispatch call: method() where method = reply_dispatcher[typ]
     disp = [n for n in disp if n.kind == 'stmt' and isinstance(n.ast, ast.Expr)]
@@ -312,7 +313,7 @@ def r05_3(run):
     run.floor('R05.3', 'reply_error(_create_socks_error(rep)) sites', hits, 1)
     # dispatch table keyed by ATYP
     for n in walk_unit(pr):
-        if isinstance(n, ast.Subscript) and dotted(n.value) == 'reply_dispatcher':
+        if isinstance(n, ast.Subscript) and isinstance(n.value, ast.Name) and n.value.id in names_defined_by(pr, lambda v: isinstance(v, ast.Dict)):
             run.ob('R05.3', pr, n, 'address parser chosen by the ATYP field', dotted(n.slice) == typ, slot='dispatch-key',
                    message='dispatcher indexed by %s, ATYP is %s' % (src(n.slice), typ))
     # minimum length before looking at the header
@@ -435,7 +436,7 @@ def r05_6(run):
     mc = MU(run, '_make_connection')
     for c in calls_in(mc, 'self._when_done.fire'):
         a = c.args[0] if c.args else None
-        ok = a is not None and dotted(a) in ('sender', 'self._sender')
+        ok = a is not None and (dotted(a) == 'self._sender' or dotted(a) in names_defined_by(mc, lambda v: isinstance(v, ast.Call) and dotted(v.func) == 'self._create_connection'))
         run.ob('R05.6', mc, c, 'success resolves with the application protocol', ok, slot='success-value', message='_make_connection fires %s' % src(c))
     so.check_so(run, 'R05.6')
 
